@@ -82,6 +82,22 @@ class Unit:
 
     def obj_attr(self, interp, obj, attr, line):
         """Attribute of an SObj that is not a stored field: property / method of the real class (inlined)."""
+        if obj._cls == 'SuperProxy':
+            target = obj.get('obj')
+            module, cls = obj.get('after')
+            chain = self.class_chain(target._cls)
+            names = [(m, c) for m, c in chain]
+            # skip up to and including the class whose method is executing
+            start = 0
+            for k, (m, c) in enumerate(names):
+                if m == module and c == cls:
+                    start = k + 1
+                    break
+            for m, c in names[start:]:
+                fi = self.sources.function(m, f'{c}.{attr}')
+                if fi is not None:
+                    return FuncRef(m, f'{c}.{attr}', bound_self=target)
+            raise Unsupported(f'super().{attr} not found', line)
         h = self.obj_attrs.get((obj._cls, attr))
         if h is not None:
             return h(interp, obj, line)
@@ -210,7 +226,17 @@ class Unit:
         return STensor((n,), lambda k: start + V.to_real(k) * step, 'real')
 
     def super_hook(self, interp, line):
-        return NotImplemented
+        """super() inside a method of a gemdat class: proxy that resolves attributes in the base classes."""
+        cur = interp.cur_func or ''
+        parts = cur.split('.')
+        if len(parts) < 3:
+            raise Unsupported('super() outside a method')
+        cls = parts[-2]
+        module = '.'.join(parts[:-2])
+        self_obj = interp.cur_self
+        if self_obj is None:
+            raise Unsupported('super() without self')
+        return SObj('SuperProxy', obj=self_obj, after=(module, cls))
 
     def isinstance(self, interp, v, cls, line):
         names = cls if isinstance(cls, tuple) else (cls,)
@@ -367,7 +393,11 @@ class Unit:
     def sqrt(self, ctx, x):
         x = V.to_real(x)
         s = self._sqrt(x)
-        ctx.assume(z3.Implies(x >= 0, z3.And(s >= 0, s * s == x)), tag='sqrt(x)>=0 and sqrt(x)^2=x for x>=0')
+        if not ctx.ghost.get('sqrt_axiom'):
+            ctx.ghost['sqrt_axiom'] = True
+            q = z3.Real('sqrt_arg')
+            ctx.assume(z3.ForAll([q], z3.Implies(q >= 0, z3.And(self._sqrt(q) >= 0, self._sqrt(q) * self._sqrt(q) == q)), patterns=[self._sqrt(q)]),
+                       tag='sqrt(x)>=0 and sqrt(x)^2=x for x>=0')
         return s
 
     def log(self, ctx, x):
